@@ -77,7 +77,8 @@ def polynomial_from_attributes(
         retain_names=retain_names,
     )
     if coefficients:
-        dtype = coefficients[0].dtype if dtype is None else dtype
+        # the common type of all coefficients: taking the first one's truncates the others
+        dtype = numpy.result_type(*coefficients) if dtype is None else dtype
         shape = coefficients[0].shape
     else:
         dtype = dtype if dtype else int
